@@ -34,8 +34,10 @@ type scField struct {
 	Acts   []string `json:"acts"`
 }
 
-type scStop struct {
-	M     int        `json:"m"`     // the consumer declines after its m-th item
+// scWalk is one walk of an iterator value; all walks of a value use the SAME function value,
+// obtained from one s.Iter() call.
+type scWalk struct {
+	M     int        `json:"m"`     // 0: the consumer takes everything; else it declines after its m-th item
 	Got   [][]string `json:"got"`   // items delivered
 	After int        `json:"after"` // calls made after the consumer declined
 }
@@ -53,7 +55,7 @@ type scObs struct {
 	Len   int        `json:"len"` // -1: not called (documented to panic on the unlimited scope)
 	Iter  [][]string `json:"iter"`
 	Text  string     `json:"text"`
-	Stop  scStop     `json:"stop"`
+	Walks []scWalk   `json:"walks"` // full, interrupted after m, full again, interrupted after 1, full again
 	RT    scRT       `json:"rt"`
 }
 
@@ -131,25 +133,29 @@ func scObserve(s ociauth.Scope, m int, full bool) *scObs {
 	}
 	o.Iter = scIter(s)
 	o.Text = s.String()
-	o.Stop = scStop{M: m, Got: [][]string{}}
+	o.Walks = []scWalk{}
 	o.RT = scRT{Iter: [][]string{}}
 	if !full {
-		o.Stop.M = 0
 		return o
 	}
-	declined := false
-	s.Iter()(func(rs ociauth.ResourceScope) bool {
-		if declined {
-			o.Stop.After++
-			return false
-		}
-		o.Stop.Got = append(o.Stop.Got, scTriple(rs))
-		if len(o.Stop.Got) >= m {
-			declined = true
-			return false
-		}
-		return true
-	})
+	it := s.Iter() // one iterator value, walked several times
+	for _, k := range []int{0, m, 0, 1, 0} {
+		w := scWalk{M: k, Got: [][]string{}}
+		declined := false
+		it(func(rs ociauth.ResourceScope) bool {
+			if declined {
+				w.After++
+				return false
+			}
+			w.Got = append(w.Got, scTriple(rs))
+			if k > 0 && len(w.Got) >= k {
+				declined = true
+				return false
+			}
+			return true
+		})
+		o.Walks = append(o.Walks, w)
+	}
 	back := ociauth.ParseScope(o.Text)
 	o.RT = scRT{Iter: scIter(back), Eq: back.Equal(s), Text: back.String()}
 	return o
@@ -688,7 +694,9 @@ func scopeCmd(args []string) error {
 			}
 			for i := range p.Defs {
 				if o := p.Defs[i].Obs; o != nil {
-					p.Defs[i].m = o.Stop.M
+					if len(o.Walks) > 1 {
+						p.Defs[i].m = o.Walks[1].M
+					}
 				}
 				p.Defs[i].Obs = nil
 			}
